@@ -3,7 +3,7 @@ C15, byte level: the laws of `Proofs/FilterDomUniv.lean` discharged from W5's cl
 (`Proofs/HtmlClosed*.lean`): the `Simple` grammar with arbitrary tag names and attribute texts.
 -/
 import RioModel.Proofs.FilterDomUniv
-import RioModel.Proofs.HtmlClosed3
+import RioModel.Proofs.HtmlClosed4
 set_option linter.unusedSimpArgs false
 set_option linter.unusedVariables false
 
@@ -32,23 +32,29 @@ theorem closed_of_piece_tag {x disp : Bytes} {k : TokenType} {a : Nat}
     List.length_pos_iff.mpr hx⟩
   rw [closedEnd_cons hst pc.err]; rfl
 
+/-- a tag name as `read_tag_name` delimits it (a letter, then any bytes other than white space, `/`, `>`: `-`, `:`, `_`,
+digits … are name bytes), ASCII (`tag_name()` lower-cases with Unicode rules, which are not modelled) -/
+def NameOKU (d : Bytes) : Prop := nameOK2 d = true ∧ ∀ b ∈ d, b < 128
+
+theorem nameOKU_of_nameOK {d : Bytes} (h : nameOK d = true) : NameOKU d := ⟨nameOK2_of_nameOK h, nameOK_ascii h⟩
+
 /-- ordinary start tag: name, attributes, `>` -/
 def StartOKU (d a : Bytes) : Prop :=
-  nameOK d = true ∧ isRawName (lowerName d) = false ∧
+  NameOKU d ∧ isRawName (lowerName d) = false ∧
   ∃ (as : List SAttr) (trail : Bytes), a = attrsOf as ++ trail ∧ (∀ x ∈ as, x.ok = true) ∧
     (∀ b ∈ trail, isWs b = true)
 
 /-- self-closing tag: the last attribute is quoted or white space precedes `/>` -/
 def SelfOKU (d a : Bytes) : Prop :=
-  nameOK d = true ∧ isRawName (lowerName d) = false ∧
+  NameOKU d ∧ isRawName (lowerName d) = false ∧
   ∃ (as : List SAttr) (trail : Bytes), a = attrsOf as ++ trail ∧ (∀ x ∈ as, x.ok = true) ∧
     (∀ b ∈ trail, isWs b = true) ∧ endOK as trail .slashGt = true
 
-theorem nameOK_head {d : Bytes} (h : nameOK d = true) : ∃ c rest, d = c :: rest ∧ isAlpha c = true := by
+theorem nameOK_head {d : Bytes} (h : nameOK2 d = true) : ∃ c rest, d = c :: rest ∧ isAlpha c = true := by
   cases d with
-  | nil => simp [nameOK] at h
+  | nil => simp [nameOK2] at h
   | cons c rest =>
-    simp only [nameOK, Bool.and_eq_true] at h
+    simp only [nameOK2, Bool.and_eq_true] at h
     exact ⟨c, rest, rfl, h.1⟩
 
 theorem opener_of_alpha {c : Nat} (h : isAlpha c = true) : Rio.Filter.isOpener c = true := by
@@ -57,13 +63,13 @@ theorem opener_of_alpha {c : Nat} (h : isAlpha c = true) : Rio.Filter.isOpener c
 theorem start_closed_U (d a : Bytes) (h : StartOKU d a) :
     Closed (startTok (lowerName d) d a).raw [startTok (lowerName d) d a] ∧
     StartsOpener (startTok (lowerName d) d a).raw := by
-  obtain ⟨hn, hraw, as, trail, rfl, hok, htr⟩ := h
+  obtain ⟨⟨hn, hasc⟩, hraw, as, trail, rfl, hok, htr⟩ := h
   obtain ⟨c, rest, rfl, hc⟩ := nameOK_head hn
   refine ⟨?_, ⟨c, rest ++ (attrsOf as ++ trail) ++ [62], by simp [startTok], opener_of_alpha hc⟩⟩
   have hx : (startTok (lowerName (c :: rest)) (c :: rest) (attrsOf as ++ trail)).raw =
       [60] ++ (c :: rest) ++ attrsOf as ++ trail ++ TagEnd.gt.text := by
     simp [startTok, TagEnd.text, List.append_assoc]
-  have cf := start_tag_closed_form (Tokenizer.new
+  have cf := start_tag_closed_form2 (Tokenizer.new
       ([60] ++ (c :: rest) ++ attrsOf as ++ trail ++ TagEnd.gt.text).toArray) (c :: rest) as trail .gt
     (ok_new _) rfl rfl hn hok htr rfl (by simpa [Tokenizer.new] using has_new _)
   have hrn : isRawName ((c :: rest).map lowerByte) = false := hraw
@@ -73,20 +79,20 @@ theorem start_closed_U (d a : Bytes) (h : StartOKU d a) :
   have := closed_of_piece_tag (x := [60] ++ (c :: rest) ++ attrsOf as ++ trail ++ TagEnd.gt.text)
     (disp := c :: rest) (k := .startTag) (a := 1) (Or.inl rfl)
     (by simpa [Tokenizer.new, TagEnd.kind] using pc) (by simpa [Tokenizer.new] using hdS)
-    (by simpa [Tokenizer.new] using hdE) (by simp) (nameOK_ascii hn) (by simp)
+    (by simpa [Tokenizer.new] using hdE) (by simp) hasc (by simp)
   rw [hx]
   simpa [startTok, kindOf, TagEnd.text, List.append_assoc] using this
 
 theorem self_closed_U (d a : Bytes) (h : SelfOKU d a) :
     Closed (selfTok (lowerName d) d a).raw [selfTok (lowerName d) d a] ∧
     StartsOpener (selfTok (lowerName d) d a).raw := by
-  obtain ⟨hn, hraw, as, trail, rfl, hok, htr, hend⟩ := h
+  obtain ⟨⟨hn, hasc⟩, hraw, as, trail, rfl, hok, htr, hend⟩ := h
   obtain ⟨c, rest, rfl, hc⟩ := nameOK_head hn
   refine ⟨?_, ⟨c, rest ++ (attrsOf as ++ trail) ++ [47, 62], by simp [selfTok], opener_of_alpha hc⟩⟩
   have hx : (selfTok (lowerName (c :: rest)) (c :: rest) (attrsOf as ++ trail)).raw =
       [60] ++ (c :: rest) ++ attrsOf as ++ trail ++ TagEnd.slashGt.text := by
     simp [selfTok, TagEnd.text, List.append_assoc]
-  have cf := start_tag_closed_form (Tokenizer.new
+  have cf := start_tag_closed_form2 (Tokenizer.new
       ([60] ++ (c :: rest) ++ attrsOf as ++ trail ++ TagEnd.slashGt.text).toArray) (c :: rest) as trail .slashGt
     (ok_new _) rfl rfl hn hok htr hend (by simpa [Tokenizer.new] using has_new _)
   have hrn : isRawName ((c :: rest).map lowerByte) = false := hraw
@@ -96,30 +102,33 @@ theorem self_closed_U (d a : Bytes) (h : SelfOKU d a) :
   have := closed_of_piece_tag (x := [60] ++ (c :: rest) ++ attrsOf as ++ trail ++ TagEnd.slashGt.text)
     (disp := c :: rest) (k := .selfClosing) (a := 1) (Or.inr (Or.inr rfl))
     (by simpa [Tokenizer.new, TagEnd.kind] using pc) (by simpa [Tokenizer.new] using hdS)
-    (by simpa [Tokenizer.new] using hdE) (by simp) (nameOK_ascii hn) (by simp)
+    (by simpa [Tokenizer.new] using hdE) (by simp) hasc (by simp)
   rw [hx]
   simpa [selfTok, kindOf, TagEnd.text, List.append_assoc] using this
 
 /-! ### end tags, comments, declarations -/
 
-def EndOKU (d : Bytes) : Prop := nameOK d = true
+def EndOKU (d : Bytes) : Prop := NameOKU d
 
 theorem end_closed_U (d : Bytes) (h : EndOKU d) :
     Closed (endTok (lowerName d) d).raw [endTok (lowerName d) d] := by
   have hx : (endTok (lowerName d) d).raw = [60, 47] ++ d ++ [62] := by simp [endTok]
-  have cf := end_tag_closed_form (Tokenizer.new ([60, 47] ++ d ++ [62]).toArray) d (ok_new _) rfl rfl h
+  have cf := end_tag_closed_form2 (Tokenizer.new ([60, 47] ++ d ++ [62]).toArray) d (ok_new _) rfl rfl h.1
     (by simpa [Tokenizer.new] using has_new _)
   obtain ⟨pc, hdS, hdE⟩ := cf
   have := closed_of_piece_tag (x := [60, 47] ++ d ++ [62]) (disp := d) (k := .endTag) (a := 2) (Or.inr (Or.inl rfl))
     (by simpa [Tokenizer.new] using pc) (by simpa [Tokenizer.new] using hdS)
-    (by simpa [Tokenizer.new] using hdE) (by simp) (nameOK_ascii h) (by simp)
+    (by simpa [Tokenizer.new] using hdE) (by simp) h.2 (by simp)
   rw [hx]
   simpa [endTok, kindOf] using this
 
-/-- a comment `<!--` body `-->` (no `>` and no `!` in the body) or a doctype declaration `<!DOCTYPE …>` -/
+/-- a comment `<!--` body `-->` (`commentOK2`: the body may hold `>` and `!` but no `-->` / `--!>`, does not start with `>`,
+`->`, `!>` and does not end with `--!`), a doctype declaration `<!DOCTYPE …>`, or a bogus comment `<?…>` (processing
+instruction; no `>` inside) -/
 def OtherOKU (x : Bytes) : Prop :=
-  (∃ body, commentOK body = true ∧ x = [60, 33, 45, 45] ++ body ++ [45, 45, 62]) ∨
-  (∃ kw r, doctypeOK kw r = true ∧ x = [60, 33] ++ kw ++ r ++ [62])
+  (∃ body, commentOK2 body = true ∧ x = [60, 33, 45, 45] ++ body ++ [45, 45, 62]) ∨
+  (∃ kw r, doctypeOK kw r = true ∧ x = [60, 33] ++ kw ++ r ++ [62]) ∨
+  (∃ tx, (∀ b ∈ tx, b ≠ 62) ∧ x = [60, 63] ++ tx ++ [62])
 
 theorem closed_of_piece_plain {x : Bytes} {k : TokenType} (hk : k = .comment ∨ k = .doctype)
     (pc : Piece (Tokenizer.new x.toArray) (next (Tokenizer.new x.toArray)) k x.length []) (hx : x ≠ []) :
@@ -134,15 +143,19 @@ theorem closed_of_piece_plain {x : Bytes} {k : TokenType} (hk : k = .comment ∨
   rw [closedEnd_cons hst pc.err]; rfl
 
 theorem other_closed_U (x : Bytes) (h : OtherOKU x) : Closed x [⟨.other, x, []⟩] ∧ StartsOpener x := by
-  rcases h with ⟨body, hb, rfl⟩ | ⟨kw, r, hok, rfl⟩
+  rcases h with ⟨body, hb, rfl⟩ | ⟨kw, r, hok, rfl⟩ | ⟨tx, htx, rfl⟩
   · refine ⟨?_, ⟨33, [45, 45] ++ body ++ [45, 45, 62], by simp, by decide⟩⟩
-    have cf := comment_closed_form (Tokenizer.new ([60, 33, 45, 45] ++ body ++ [45, 45, 62]).toArray) body
+    have cf := comment_closed_form2 (Tokenizer.new ([60, 33, 45, 45] ++ body ++ [45, 45, 62]).toArray) body
       (ok_new _) rfl rfl hb (by simpa [Tokenizer.new] using has_new _)
     exact closed_of_piece_plain (Or.inl rfl) (by simpa [Tokenizer.new] using cf.1) (by simp)
   · refine ⟨?_, ⟨33, kw ++ r ++ [62], by simp, by decide⟩⟩
     have cf := doctype_closed_form (Tokenizer.new ([60, 33] ++ kw ++ r ++ [62]).toArray) kw r
       (ok_new _) rfl rfl hok (by simpa [Tokenizer.new] using has_new _)
     exact closed_of_piece_plain (Or.inr rfl) (by simpa [Tokenizer.new] using cf.1) (by simp)
+  · refine ⟨?_, ⟨63, tx ++ [62], by simp, by decide⟩⟩
+    have cf := bogus_closed_form (Tokenizer.new ([60, 63] ++ tx ++ [62]).toArray) tx
+      (ok_new _) rfl rfl htx (by simpa [Tokenizer.new] using has_new _)
+    exact closed_of_piece_plain (Or.inl rfl) (by simpa [Tokenizer.new] using cf.1) (by simp)
 
 /-! ### raw-text elements (script, style, title, textarea, …): start tag, raw text, end tag as one closed piece -/
 
@@ -150,14 +163,14 @@ def RawOKU (d a c : Bytes) : Prop :=
   nameOK d = true ∧ isRawName (lowerName d) = true ∧ lowerName d ≠ Rio.Consts.htmlPlaintext ∧
   (∃ (as : List SAttr) (trail : Bytes), a = attrsOf as ++ trail ∧ (∀ x ∈ as, x.ok = true) ∧
     (∀ b ∈ trail, isWs b = true)) ∧
-  rawContentOK c = true
+  rawOK2 ((lowerName d).headD 0) c = true
 
 theorem raw_closed_U (d a c : Bytes) (h : RawOKU d a c) :
     Closed ((startTok (lowerName d) d a).raw ++ c ++ (endTok (lowerName d) d).raw)
       (startTok (lowerName d) d a :: (textToks c ++ [endTok (lowerName d) d])) ∧
     StartsOpener (startTok (lowerName d) d a).raw := by
   obtain ⟨hn, hraw, hpl, ⟨as, trail, rfl, hok, htr⟩, hc⟩ := h
-  obtain ⟨c0, rest0, hd0, hc0⟩ := nameOK_head hn
+  obtain ⟨c0, rest0, hd0, hc0⟩ := nameOK_head (nameOK2_of_nameOK hn)
   refine ⟨?_, ⟨c0, rest0 ++ (attrsOf as ++ trail) ++ [62], by subst hd0; simp [startTok], opener_of_alpha hc0⟩⟩
   -- the three parts
   let S : Bytes := [60] ++ d ++ attrsOf as ++ trail ++ TagEnd.gt.text
@@ -224,8 +237,14 @@ theorem raw_closed_U (d a c : Bytes) (h : RawOKU d a c) :
     exact hce
   · -- the raw text, then the end tag
     have hhasC : Has t2 t2.rawE (c ++ [60, 47] ++ d ++ [62]) := by simpa [E, List.append_assoc] using hhas2
-    have cf2 := rawtext_closed_form t2 d c 62 inv2.ok e2 (by rw [tg2]; rfl) htagne (by rw [tg2]; exact hpl)
-      (by rw [tg2]; exact TagOk_lower_of_nameOK hn) hc hcne (by decide) hhasC
+    obtain ⟨first, tl, hft, _⟩ := rawName_first hraw
+    have hft' : d.map lowerByte = first :: tl := hft
+    have hc' : rawOK2 first c = true := by
+      have := hc
+      rw [hft] at this
+      exact this
+    have cf2 := rawtext_closed_form2 t2 d c tl 62 first inv2.ok e2 (by rw [tg2]; rfl) hft'
+      (by rw [tg2]; exact hraw) (by rw [tg2]; exact hpl) hc' hcne (by decide) hhasC
     obtain ⟨pc2, _, _⟩ := cf2
     have f2 : StepFacts t2 .text c [] := ⟨hasA_of_has hhas2.left, pc2.token, pc2.rawE, pc2.err, pc2.rawTag, pc2.cdata⟩
     have hst2 := step_plain inv2 f2 (Or.inl rfl)
@@ -247,12 +266,6 @@ theorem raw_closed_U (d a c : Bytes) (h : RawOKU d a c) :
     rw [closedEnd_cons hst1 pc1.err, closedEnd_cons hst2 pc2.err]
     exact hce
 
-theorem raw_noLt_U (d a c : Bytes) (h : RawOKU d a c) : ∀ b ∈ c, b ≠ 60 := by
-  intro b hb
-  have := h.2.2.2.2
-  simp only [rawContentOK, List.all_eq_true] at this
-  simpa using this b hb
-
 /-- **the laws hold for the tokenizer of the filters** -/
 def simpleLaws : Laws where
   StartOK := StartOKU
@@ -265,6 +278,5 @@ def simpleLaws : Laws where
   end_closed := end_closed_U
   raw_closed := raw_closed_U
   other_closed := other_closed_U
-  raw_noLt := raw_noLt_U
 
 end Rio.Filter
